@@ -8,6 +8,7 @@ frames.  Correspondence: the whole run replayed by driver_deribit (`bars`), comp
 from __future__ import annotations
 
 import copy
+import warnings
 from decimal import Decimal
 from fractions import Fraction
 from types import SimpleNamespace
@@ -18,7 +19,7 @@ import deribit_lib as L
 from common import Ctx, driver_json
 
 PROPERTY = "C16"
-LEAN_MODULES = ["Proofs.C16", "Proofs.C16.Run", "Proofs.C16.Trades", "Proofs.C16.General"]
+LEAN_MODULES = ["Proofs.C16", "Proofs.C16.Run", "Proofs.C16.Trades", "Proofs.C16.General", "Proofs.C16.Guard", "Proofs.C16.Hooks", "Proofs.C16.HooksRun", "Proofs.C16.Frame"]
 DRIVERS = ["driver_deribit"]
 RULE = ("whole backtests through Actuator.run: 2-5 hours at interval 1min (with a minutely Uniswap co-market), 3-8 hours at 5min / 1h, 6-14 hours at "
         "2h / 4h (resampled option data, whole coarse bars without option data); calls and puts, strikes around the underlying path and around the "
@@ -32,8 +33,15 @@ RULE = ("whole backtests through Actuator.run: 2-5 hours at interval 1min (with 
         "payoff>fee or not, expiry position class, row present/absent, settled at which kind of bar) and (trade attempt, bar open/closed, outcome)")
 TRUSTED = ["the payoff ratio |S-K|/S is float arithmetic (numpy) on book rows: reproduced with Lean Float in the driver, exact reals in the theorems; "
            "the oracle allows one fee step (1e-6) between the exact-real payoff and the float one and counts such cases (measured: see notes)",
-           "pandas resampling / Actuator plumbing is exercised, not modelled: the model's bar list is read off the frames the Actuator iterates"]
-ASSUMPTIONS = ["token prices are Decimals (Actuator.set_price converts), underlying prices > 0", "instrument names unique per hour"]
+           "pandas resampling / Actuator plumbing is exercised, not modelled: the model's bar list is read off the frames the Actuator iterates; "
+           "the option frame handed to the model (`frame`: which timestamps carry which rows, after resampling) is computed by this harness from the "
+           "scenario; from it the MODEL derives each bar's is_open flag and book (Demeter/Deribit/Frame.lean, `C16_flag_follows_data`) and the flag "
+           "is compared with the market's is_open after every bar"]
+ASSUMPTIONS = ["token prices are Decimals (Actuator.set_price converts)",
+               "underlying prices > 0 in the run-level streams: the theorems about update() carry it as the hypothesis `SettleGuard` (every due in-the-money "
+               "position has an underlying price other than 0, Proofs/C16/Guard.lean); without it update() raises (DivisionByZero / InvalidOperation) half-way — "
+               "modelled by `updateE`, compared step-wise in the `update:zero-underlying:*` buckets",
+               "instrument names unique per hour"]
 
 DELIVERY_FEE = Fraction(15, 100000)    # 0.015 % per contract      (property text)
 MAX_FEE = Fraction(125, 1000)          # 12.5 % of the option value (property text)
@@ -562,6 +570,25 @@ def oracle(ctx, sc, rec, balances, prices, rep):
             v("settlement-records-without-settlement", f"minute {now}: {[a['type'] for a in upd_actions]}")
         if post["wallet"] != pre["wallet"]:
             v("settlement-touched-wallet", f"minute {now}")
+        # ---- positions opened after update() (after_bar / notify): `C16_barX_due_survivor_was_opened_by_a_late_hook` — a due position at the
+        # end of an on-grid bar did not exist (as that record) after update(), a late call named its key and was accepted, and the bar's data
+        # lists the instrument as open; it is settled by the next on-grid bar (checked there through `due`)
+        final = bar.get("final")
+        if on_grid and final is not None:
+            late_ok = set(o["op"].get("name") for o in bar["ops"] if o["phase"] in ("after", "notify") and o["op"]["type"] == "buy" and o["out"] == "ok")
+            for p in final["positions"]:
+                if p["expiry"] <= now:
+                    row = row_at(sc, now, p["name"]) if hour_present(sc, now) else None
+                    listed = row is not None and row["state"] == "open"
+                    if p in post["positions"]:
+                        v("due-position-left-after-on-grid-bar", f"{p['key']} (expiry minute {p['expiry']}) is still held at the end of the on-grid bar at minute {now}")
+                    elif p["key"] not in late_ok or not listed:
+                        v("due-position-at-bar-end-not-from-a-late-hook", f"{p['key']} (expiry minute {p['expiry']}) is held at the end of minute {now}; "
+                          f"late buys accepted: {sorted(late_ok)}, instrument listed as open: {listed}")
+                    else:
+                        ctx.case(f"late-hook:{sc['interval']}:expired-instrument-bought-after-update:{'settling-bar' if any(q['key'] == p['key'] for q in due) else 'later-bar'}",
+                                 {"minute": now, "position": L.canon(p)})
+                        ctx.count("due_positions_opened_by_late_hooks")
     ctx.count("positions_settled", sum(expired_seen.values()))
 
 
@@ -582,6 +609,8 @@ def model_request(sc, rec, prices, dm):
         ops = {"before": [], "on": [], "after": [], "notify": []}
         for op in sc["script"].get(now, []):
             ops[op.get("phase", "on")].append(L.op_json(op))
+        # `flagOpen` / `book` are what this harness expects; the driver does not read them when `frame` is sent (Demeter/Deribit/Frame.lean:
+        # the model derives both from the option frame: `timestamp in _data.index`, `_data.loc[timestamp.floor("1h")]`)
         bars.append({"now": now, "flagOpen": bool(now % width == 0 and books[book_idx[hm]]) if width > 60 else now in hours_present,
                      "book": book_idx[hm], "price": Fraction(prices.loc[L.ts_of(now)]["ETH"]), "priceDec": True,
                      "ops": ops["before"] + ops["on"], "opsAfter": ops["after"], "opsNotify": ops["notify"]})
@@ -592,7 +621,10 @@ def model_request(sc, rec, prices, dm):
                     "sellAmt": Fraction(0)})
     state = {"cash": Fraction(sc["cash"]), "positions": pos, "book": [], "wallet": [["ETH", Fraction(sc["wallet"])], ["USDC", Fraction(1000)]],
              "allowNeg": False, "cache": None, "flagOpen": True, "now": 0, "price": Fraction(0), "priceDec": True}
-    return {"fn": "bars", "cfg": "ETH", "ctx": "py", "float": "ieee", "state": L.canon(state), "books": L.canon(books), "bars": L.canon(bars)}
+    # the option frame as the market holds it (after resampling on a grid coarser than one hour): the timestamps that carry rows
+    frame = [{"t": hm, "book": bi} for hm, bi in sorted(book_idx.items()) if books[bi]]
+    return {"fn": "bars", "cfg": "ETH", "ctx": "py", "float": "ieee", "state": L.canon(state), "books": L.canon(books), "bars": L.canon(bars),
+            "frame": frame}
 
 
 def compare(ctx, sc, rec, balances, ans, rep):
@@ -675,6 +707,37 @@ def directed():
     return out
 
 
+def late_hooks():
+    """D-2: the expired instrument is still listed as open on the first on-grid bar at/after its expiry and the strategy buys it there from
+    after_bar / notify — after that bar's update().  The held position is settled in that bar (one record); the late-bought one survives it and
+    is settled by the next on-grid bar (a second record): `C16_late_hook_buy_is_settled_one_bar_late`.  With the row gone at expiry the late buy
+    is refused (`C16_runX_settles_exactly_once`)."""
+    out = []
+    for interval in ("1min", "1h"):
+        for phase in ("after", "notify"):
+            for gone in (False, True):
+                for expiry in (60, 75):
+                    kind, strike, S = "CALL", 1600, 1651.94
+                    name = f"ETH-L-{strike}-C"
+                    i = {"name": name, "kind": kind, "strike": strike, "expiry": expiry, "exp_cls": "late-hook", "gone": gone, "path": [(S, 0.0479)] * 4}
+                    hours = []
+                    for h in range(4):
+                        rows = [{"name": "ETH-OTHER-9999-C", "state": "open", "kind": "CALL", "strike": 9999, "expiry": 10 ** 6, "mark": 0.001,
+                                 "underlying": 2000.0, "delta": 0.1, "gamma": 0.001, "asks": [[0.0015, 10]], "bids": [[0.0005, 10]]}]
+                        if not (gone and 60 * h >= expiry):
+                            rows.append({"name": name, "state": "open", "kind": kind, "strike": strike, "expiry": expiry, "mark": 0.0479, "underlying": S,
+                                         "delta": 0.5, "gamma": 0.001, "asks": [[0.05, 145]], "bids": [[0.045, 70]]})
+                        hours.append((60 * h, rows))
+                    settle = 60 if expiry == 60 else 120
+                    ops = [{"type": "buy", "name": name, "amount": 2, "phase": phase}]
+                    if phase == "notify":
+                        ops.insert(0, {"type": "deposit", "amount": Decimal("0.005")})
+                    out.append({"interval": interval, "n_hours": 4, "tick": 200000, "instrs": [i], "hours": hours,
+                                "positions": [{"name": name, "expiry": expiry, "strike": strike, "kind": kind, "amount": "2"}],
+                                "script": {settle: ops}, "cash": "5", "wallet": "10"})
+    return out
+
+
 def coarse_gap():
     """interval 2h / 4h, a whole coarse bar without option data inside the life of the instrument, an in-the-money call that expires in the gap:
     it settles at the first on-grid bar at or after expiry -- the gap bar -- against the token price (the row is absent there)"""
@@ -706,9 +769,134 @@ def first_hour_missing():
     return sc
 
 
+def round_step(x: Fraction, step: Fraction) -> Fraction:
+    """round half up (away from zero) to a multiple of `step`"""
+    n = x / step
+    sg = -1 if n < 0 else 1
+    n = abs(n)
+    fl = n.numerator // n.denominator
+    if n - fl >= Fraction(1, 2):
+        fl += 1
+    return sg * fl * step
+
+
+def btc_settlement_steps(ctx, reqs):
+    """update() of a BTC market (min_fee_decimal -8, delivery fee 0.015 %): the payoff formula with the BTC literals
+    (`C16_payoff_formula_btc`), step-wise — oracle on the implementation's cash, and the model's answer for the same state."""
+    rng = ctx.rng
+    step = Fraction(1, 10 ** 8)
+    for _ in range(ctx.scale(24, 600)):
+        S = rng.choice((26000.0, 27000.5, 27350.25, 31000.0))
+        book, positions, want = [], [], Fraction(0)
+        n = rng.randint(1, 3)
+        for j in range(n):
+            kind = rng.choice(("CALL", "PUT"))
+            strike = rng.choice((25000, 26500, 27000, 27300, 27400, 28000, 33000))
+            amt = Decimal(rng.choice(("0.1", "0.3", "1.2", "2", "0.7")))
+            due = rng.random() < 0.8
+            expiry = rng.choice((60, 75, 120)) if due else 600
+            listed = rng.random() < 0.7
+            mark = rng.choice((0.0479, 0.0005, 0.00001234, 0.2))
+            name = f"BTC-{j}-{strike}-{kind[0]}"
+            if listed:
+                book.append({"name": name, "state": "open", "kind": kind, "strike": strike, "expiry": expiry, "mark": mark, "underlying": S,
+                             "delta": 0.5, "gamma": 0.001, "asks": [[0.06, 5]], "bids": [[0.04, 5]]})
+            positions.append({"name": name, "expiry": expiry, "strike": strike, "kind": kind, "amount": str(amt)})
+            if due:
+                Sq = Fraction(S) if listed else Fraction(Decimal("27100.5"))
+                mq = Fraction(mark) if listed else Fraction(0)
+                K, a = Fraction(strike), Fraction(amt)
+                itm = (kind == "CALL" and K < Sq) or (kind == "PUT" and K > Sq)
+                cls = "OTM"
+                if itm:
+                    gross = round_step(a * abs(Sq - K) / Sq, step)
+                    fee = round_step(min(DELIVERY_FEE * a, MAX_FEE * a * round_step(mq, step)), step)
+                    cls = "ITM" if gross > fee else "ITM-below-fee"
+                    if gross > fee:
+                        want += gross - fee
+                ctx.case(f"settle-step:BTC:{kind}:{cls}:{'row-present' if listed else 'row-absent'}")
+        if not book:
+            book.append({"name": "BTC-OTHER-99999-C", "state": "open", "kind": "CALL", "strike": 99999, "expiry": 10 ** 6, "mark": 0.001,
+                         "underlying": S, "delta": 0.1, "gamma": 0.001, "asks": [[0.0015, 10]], "bids": [[0.0005, 10]]})
+        rig = L.Rig(book, now=120, token="BTC", cash=Decimal(1), positions=positions, price=Decimal("27100.5"))
+        S1 = L.dump_state(rig)
+        n0 = len(rig.actions)
+        out, res = L.apply_op(rig, {"type": "update"})
+        S2 = L.dump_state(rig)
+        acts = [L.dump_action(a) for a in rig.actions[n0:]]
+        rep = {"btc_settlement": {"book": book, "positions": positions}}
+        n_due = sum(1 for p in positions if p["expiry"] <= 120)
+        if out != "ok":
+            ctx.violate(f"btc-update-crash.{out}", f"update() of a BTC market raised {out}", rep)
+        else:
+            dev = abs(S2["cash"] - S1["cash"] - want)
+            if dev > step * n_due:
+                ctx.violate("btc-payoff", f"BTC update(): cash {L.fmt(S1['cash'])} -> {L.fmt(S2['cash'])}, the property's formula (8 decimals, 0.015 %) gives +{L.fmt(want)}", rep)
+            elif dev != 0:
+                ctx.count("payoff_one_step_deviations")
+            left = [p["key"] for p in S2["positions"]]
+            if left != [p["name"] for p in positions if p["expiry"] > 120]:
+                ctx.violate("btc-settled-set", f"BTC update() at minute 120 left {left}", rep)
+        reqs.append(("btc-settlement", L.step_request(S1, {"type": "update"}, token="BTC"), out, res, S2, acts, rep))
+
+
+def zero_underlying_steps(ctx, reqs):
+    """update() on a state whose due, in-the-money position is quoted with an underlying price of 0 (outside the data contract
+    `underlying > 0` of ASSUMPTIONS): `_deliver_option` divides by it — decimal.DivisionByZero on a Decimal token price (row gone from the
+    book), decimal.InvalidOperation on a float (numpy inf -> Decimal('Infinity') -> quantize).  The model (`stepE`/`updateE`,
+    Demeter/Deribit/Guard.lean) answers the same class and the same state: the due positions in front of the offending one are paid,
+    nothing is removed.  Theorems about `update` carry the guard `SettleGuard` (Proofs/C16/Guard.lean)."""
+    rng = ctx.rng
+    def ins(name, kind, strike, expiry, under, mark=0.05):
+        return {"name": name, "state": "open", "kind": kind, "strike": strike, "expiry": expiry, "mark": mark, "underlying": under,
+                "delta": 0.5, "gamma": 0.001, "asks": [[0.06, 5]], "bids": [[0.04, 5]]}
+    def pos(name, kind, strike, expiry, amount):
+        return {"name": name, "expiry": expiry, "strike": strike, "kind": kind, "amount": str(amount)}
+    for variant in ("float-row", "decimal-price", "float-price", "otm-zero", "not-due-zero", "off-grid-zero", "first-zero"):
+        for _ in range(ctx.scale(2, 30)):
+            strike = rng.choice((1500, 1600, 1650))
+            amt = rng.choice((1, 2, 5))
+            now = 120 if variant != "off-grid-zero" else 121
+            exp_bad = 60 if variant != "not-due-zero" else 600
+            lead = ins("ETH-A-%d-C" % (strike - 100), "CALL", strike - 100, 60, 1716.0)
+            # the offending position: a put (in the money at underlying 0 whatever the strike); `otm-zero`: a call (strike > 0 = underlying, out of the money)
+            bad_kind = "CALL" if variant == "otm-zero" else "PUT"
+            bad = ins("ETH-B-%d-%s" % (strike, bad_kind[0]), bad_kind, strike, exp_bad, 0.0)
+            tail = ins("ETH-Z-%d-C" % (strike - 50), "CALL", strike - 50, 60, 1716.0)
+            positions = [pos(lead["name"], "CALL", strike - 100, 60, amt), pos(bad["name"], bad_kind, strike, exp_bad, amt),
+                         pos(tail["name"], "CALL", strike - 50, 60, amt)]
+            if variant == "first-zero":
+                positions = [positions[1], positions[0], positions[2]]
+            if variant in ("decimal-price", "float-price"):
+                book, price = [lead, tail], (Decimal(0) if variant == "decimal-price" else 0.0)
+            else:
+                book, price = [lead, bad, tail], 1716.0
+            rig = L.Rig(book, now=now, cash=Decimal(1), positions=positions, price=price)
+            S = L.dump_state(rig)
+            n0 = len(rig.actions)
+            with warnings.catch_warnings():
+                warnings.simplefilter("ignore")          # numpy: divide by zero encountered in scalar divide
+                out, res = L.apply_op(rig, {"type": "update"})
+            S2 = L.dump_state(rig)
+            acts = [L.dump_action(a) for a in rig.actions[n0:]]
+            raises = variant in ("float-row", "decimal-price", "float-price", "first-zero")
+            ctx.case(f"update:zero-underlying:{variant}:{out}", {"variant": variant})
+            rep = {"zero_underlying": variant, "strike": strike, "amount": amt}
+            held = [p["key"] for p in S2["positions"]]
+            if raises:
+                want_cls = "DivisionByZero" if variant == "decimal-price" else "InvalidOperation"
+                if out != want_cls:
+                    ctx.disagree(f"update() with a due in-the-money position at underlying 0 ({variant}): expected {want_cls}, impl {out}", rep)
+                elif held != [p["name"] for p in positions]:
+                    ctx.disagree(f"update() raised {out} ({variant}) but the positions changed: {held}", rep)
+            elif out != "ok":
+                ctx.disagree(f"update() ({variant}): underlying 0 on a position that is not settled in the money, impl raised {out}", rep)
+            reqs.append((f"zero-underlying:{variant}", L.step_request(S, {"type": "update"}), out, res, S2, acts, rep))
+
+
 def run(ctx: Ctx):
     reqs = []
-    scs = (directed() + coarse_gap() + [first_hour_missing()]) if not ctx.search else []
+    scs = (directed() + late_hooks() + coarse_gap() + [first_hour_missing()]) if not ctx.search else []
     n = ctx.scale(26, 800)
     for _ in range(n):
         scs.append(gen_scenario(ctx.rng))
@@ -721,6 +909,15 @@ def run(ctx: Ctx):
         out = driver_json([r[0] for r in reqs], exe=L.EXE)
         for (req, sc, rec, balances, rep), ans in zip(reqs, out):
             compare(ctx, sc, rec, balances, ans, rep)
+    # the raising path of update(): underlying price 0 (step-wise, model `stepE`)
+    zreqs = []
+    if not ctx.search:
+        zero_underlying_steps(ctx, zreqs)
+        btc_settlement_steps(ctx, zreqs)
+    if ctx.driver_ok and zreqs:
+        answers = L.model_answers([r[1] for r in zreqs])
+        for (tag, req, out, res, S2, acts, rep), ans in zip(zreqs, answers):
+            L.compare_step(ctx, tag, None, None, out, res, S2, acts, ans, rep)
 
 
 def restore(sc):
@@ -746,6 +943,11 @@ def restore(sc):
 
 def replay(ctx: Ctx, case) -> bool:
     sub = Ctx(ctx.prop, ctx.tier, ctx.seed, False)
+    if "zero_underlying" in case or "btc_settlement" in case:
+        (zero_underlying_steps if "zero_underlying" in case else btc_settlement_steps)(sub, [])
+        for v in sub.violations:
+            print("  ", v["key"], v["what"])
+        return not sub.violations and not getattr(sub, "disagreements", [])
     run_one(sub, restore(case["scenario"]), [])
     for v in sub.violations:
         print("  ", v["key"], v["what"])
